@@ -3,6 +3,7 @@ package core
 import (
 	"fmt"
 	"sort"
+	"strings"
 
 	"github.com/truora/minidyn/interpreter"
 	"github.com/truora/minidyn/types"
@@ -21,6 +22,9 @@ type QueryInput struct {
 	ScanIndexForward          bool
 	Scan                      bool
 	started                   bool
+	// afterStart is set when the item named by ExclusiveStartKey no longer exists:
+	// iteration then resumes at the first entry positioned after that key
+	afterStart func(k, pk string) bool
 }
 
 // Table struct to mock a dynamodb table
@@ -284,6 +288,12 @@ func prepareSearch(input *QueryInput, index *index, k, startKey string) (string,
 		input.started = true
 	}
 
+	if input.afterStart != nil && input.afterStart(k, pk) {
+		input.started = true
+
+		return pk, true
+	}
+
 	return "", false
 }
 
@@ -334,6 +344,7 @@ func (t *Table) SearchData(input QueryInput) ([]map[string]*types.Item, map[stri
 
 	startKey := t.parseStartKey(t.KeySchema, exclusiveStartKey)
 	input.started = startKey == ""
+	input.afterStart = t.resumeAfterMissingStartKey(index, startKey, exclusiveStartKey, input.ScanIndexForward)
 	last := map[string]*types.Item{}
 	sortedKeysSize := int64(len(sortedKeys))
 
@@ -745,4 +756,45 @@ func (t *Table) validateIndexKeys(item map[string]*types.Item) error {
 	}
 
 	return nil
+}
+
+// resumeAfterMissingStartKey returns nil when the entry named by the exclusive start key is still
+// where the previous page left it. Otherwise (the item was deleted, or left the index, between
+// two pages) it returns the test for "positioned after the start key" in the iteration order:
+// (key) for the table, (index key, primary key) for an index.
+func (t *Table) resumeAfterMissingStartKey(index *index, startKey string, exclusiveStartKey map[string]*types.Item, forward bool) func(k, pk string) bool {
+	if startKey == "" {
+		return nil
+	}
+
+	startEntry := startKey
+
+	if index != nil {
+		entry, err := index.keySchema.GetKey(t.AttributesDef, exclusiveStartKey)
+		if err != nil || entry == "" {
+			// not a key returned by a previous page of this index: nothing to resume from
+			return nil
+		}
+
+		if current, ok := index.refs[startKey]; ok && current == entry {
+			return nil
+		}
+
+		startEntry = entry
+	} else if _, ok := t.Data[startKey]; ok {
+		return nil
+	}
+
+	return func(k, pk string) bool {
+		order := strings.Compare(k, startEntry)
+		if order == 0 {
+			order = strings.Compare(pk, startKey)
+		}
+
+		if forward {
+			return order > 0
+		}
+
+		return order < 0
+	}
 }
